@@ -3,6 +3,7 @@ package interp
 // Symbolic versions of the scalar operators, conversions, equality and strings.
 
 import (
+	"os"
 	"fmt"
 	"go/token"
 	"go/types"
@@ -100,8 +101,13 @@ func mkVal(k types.BasicKind, t *smt.Term) value {
 	return sym{k, t}
 }
 
+var debugSites = os.Getenv("VERIF_DEBUG") != ""
+
 func raise(msg string) {
 	P.notePanicSite()
+	if debugSites {
+		msg += " [" + P.site() + "]"
+	}
 	panic(rtPanic{msg})
 }
 
